@@ -10,6 +10,8 @@ using VpIqMap = std::unordered_map<QString, QXmpp::Private::IqState>;
 struct VpIqMap::Tbl {
     struct Slot {
         bool used = false;
+        bool skip = false;     // inserted while an iteration was running and (solver's choice) not reached by it: the real container's
+                               // iteration order is unspecified, a new element may land before or after the cursor
         union U { value_type v; U() { } ~U() { } } u;
     };
     Slot *s[VP_MAP_CAP + 1];
@@ -26,13 +28,19 @@ inline VpIqMap::value_type *VpIqMap::slot(unsigned i) const { return &vpSlot(t, 
 inline bool VpIqMap::used(unsigned i) const { return vpSlot(t, i)->used; }
 inline int VpIqMap::freeSlot() const { for (int i = VP_MAP_CAP - 1; i >= 0; i--) if (!t->s[i]->used) return i; return -1; }
 inline VpIqMap::size_type VpIqMap::size() const { size_type n = 0; for (unsigned i = 0; i < VP_MAP_CAP; i++) if (t->s[i]->used) n++; return n; }
-inline VpIqMap::iterator VpIqMap::begin() const { iterator it { this, 0 }; if (!t->s[0]->used) ++it; return it; }
+inline VpIqMap::iterator VpIqMap::begin() const
+{
+    for (unsigned k = 0; k < VP_MAP_CAP; k++) t->s[k]->skip = false;     // a new iteration sees every element
+    iterator it { this, 0 };
+    if (!t->s[0]->used) ++it;
+    return it;
+}
 inline VpIqMap::value_type &VpIqMap::iterator::operator*() const { return *m->slot(i); }
 inline VpIqMap::value_type *VpIqMap::iterator::operator->() const { return m->slot(i); }
 inline VpIqMap::iterator &VpIqMap::iterator::operator++()
 {
     unsigned n = VP_MAP_CAP;
-    for (unsigned k = VP_MAP_CAP; k-- > 0;) if (k > i && m->t->s[k]->used) n = k;
+    for (unsigned k = VP_MAP_CAP; k-- > 0;) if (k > i && m->t->s[k]->used && !m->t->s[k]->skip) n = k;
     i = n;
     return *this;
 }
@@ -52,6 +60,7 @@ template<typename... A> std::pair<VpIqMap::iterator, bool> VpIqMap::emplace(A &&
     iterator it = find(slot(f)->first);
     if (it != end()) { slot(f)->~value_type(); return { it, false }; }
     vpSlot(t, unsigned(f))->used = true;
+    vpSlot(t, unsigned(f))->skip = vp_bool();
     return { iterator { this, unsigned(f) }, true };
 }
 template<typename... A> std::pair<VpIqMap::iterator, bool> VpIqMap::try_emplace(const QString &k, A &&...a)
